@@ -13,6 +13,12 @@ CHECKS = {
  'C18': ('model_checking', 'explicit-state BFS over tree shapes x exhaustive probe keys',
          'In every distinct tree reached by the C17 exploration, every probe key (present, absent between keys, below/above range, with duplicates) is searched with Find(first), Find(any), FindWithID for each duplicate and FindInDescendingOrder; cursor placement and the ascending/descending scan from the cursor are compared with the model slice; inmemory range iteration is checked for every (from,to) pair over all subsets of 6 keys.',
          'Same harness as C17; "next to where the key would be" is read as in-order index insertion-1..insertion.', '6/C18', 'SEQX', True),
+ 'C24': ('exploration', 'exhaustive enumeration of handle field edge products + every slot of real registry blocks',
+         'The full product of per-field edge values of sop.Handle (130 UUID values per id field incl. every single bit, 5 edge values for version and timestamp, both flags; decode into fresh and into dirty targets) is round-tripped through the repository codec and an independent 62-byte codec; all 66 slots of real registry blocks (hash mods 250/251/750000; first/middle/last blocks; Add/Update/UpdateNoLocks/Remove) are written through fs.NewRegistry and after each single-slot write the raw 4096-byte block and its neighbours are diffed: only one 62-aligned slot range and the CRC bytes may change, ranges are pairwise disjoint and below the CRC.',
+         'Layout functions are unexported and are observed through real block writes (fs.DirectIOSim recording wrapper); three hash mod values.', '6/C24', 'SEQX', True),
+ 'C29': ('exploration', 'exhaustive pairs and triples over per-type edge domains',
+         'For 35 key type families (all integer widths incl. all 256 int8/uint8 values, floats with NaN payloads/signed zeros/subnormals, strings, UUIDs, times in several zones, slices incl. prefixes, []any with equal-typed positions) every ordered pair and ordered triple of the edge domain is evaluated with btree.Compare and with CoerceComparer(x) for the domain values: reflexive, antisymmetric, transitive, equal to an independently written natural order, and Compare == coerced comparer.',
+         'Edge-value domains per type (not all 2^64 values); -0/+0 may be equal or ordered as long as the order is consistent.', '6/C29', 'SEQX', True),
 }
 NA_REASON = 'check not built yet in this session; no claim is made (see DESIGN.md section 6 for the plan)'
 
